@@ -74,7 +74,7 @@ fn observe_line(line: &str) -> String {
         }
         "D" => observe_list(&toks),
         "L" => level_obs(&toks),
-        "Y" => observe_sync(&parse_sync_case(&toks)),
+        "Y" | "Yf" => observe_sync(&parse_sync_case(&toks)),
         k => panic!("unknown case kind {k}"),
     }
 }
@@ -153,7 +153,7 @@ fn compare(kind: &str, a: &str, b: &str) -> Vec<&'static str> {
             }
         }
         "L" => vec!["level"],
-        "Y" => {
+        "Y" | "Yf" => {
             if a == "PANIC" || b == "PANIC" {
                 return vec!["panic", "store"];
             }
@@ -231,7 +231,7 @@ fn nontrivial(kind: &str, case: &str, obs: &str) -> bool {
             t.len() == 3 && t[1] != "-" && t[2] != "-"
         }
         "L" => obs != "0",
-        "Y" => case.contains(",p") || case.contains(" p"),
+        "Y" | "Yf" => case.contains(",p") || case.contains(" p"),
         _ => false,
     }
 }
@@ -355,7 +355,11 @@ fn cmd_oracle(cases: &str) {
         let v: oracle::Viol = match toks[0] {
             "T" | "Tb" | "Tf" => {
                 let c = parse_tree_case(&toks);
-                dispatch_width!(c.w, oracle_tree_w, &c)
+                let mut v = dispatch_width!(c.w, oracle_tree_w, &c);
+                if c.w == 16 && !c.final_only && c.keys.len() <= 64 {
+                    v.extend(oracle::oracle_default_cfg(&c));
+                }
+                v
             }
             "P" => {
                 let c = parse_pair_case(&toks);
@@ -366,7 +370,7 @@ fn cmd_oracle(cases: &str) {
                 v
             }
             "D" => oracle::oracle_list(&parse_list(toks[1]), &parse_list(toks[2])),
-            "Y" => oracle::oracle_sync(&parse_sync_case(&toks)),
+            "Y" | "Yf" => oracle::oracle_sync(&parse_sync_case(&toks)),
             "L" => {
                 let got = level_obs(&toks);
                 let want = ref_level(&unhex(toks[2]), toks[1].parse().unwrap()).to_string();
@@ -457,12 +461,14 @@ fn main() {
                 "pair-exh" => gen::pair_exh(&mut s, p(1), p(2)),
                 "pair-rand" => gen::pair_rand(&mut s, p(1) as u64, seed, p(2)),
                 "pair-twin" => gen::pair_twin(&mut s, p(1) as u64, seed),
+                "pair-comb" => gen::pair_comb(&mut s, p(1) as u64, seed),
                 "list-exh" => gen::list_exh(&mut s, p(1) as u32, p(2)),
                 "list-rand" => gen::list_rand(&mut s, p(1) as u64, seed),
                 "level-exh" => gen::level_exh(&mut s, p(1)),
                 "level-rand" => gen::level_rand(&mut s, p(1) as u64, seed),
                 "sync-exh" => gen::sync_exh(&mut s, p(1), p(2), p(3), pos[4]),
                 "sync-rand" => gen::sync_rand(&mut s, p(1) as u64, seed, p(2)),
+                "sync-flat" => gen::sync_flat(&mut s, p(1) as u64, seed),
                 k => panic!("unknown generator {k}"),
             }
             w.flush().unwrap();
